@@ -242,8 +242,9 @@ CHECKS = {
          "panicking set_scope -- impossible). "
          "C04_flat_fragment_total / C04_flat_level_total: the same through the token-list interpreter. NOT theorems: adjacent "
          "groups with subcommands as members, or without a first "
-         "item (retry loop fuelled; FUEL and the panic sites are explicit outcomes compared with the implementation; one class "
-         "is a known finding, two were repaired by fix: commits), the panic sites "
+         "item (retry loop fuelled; FUEL and the panic sites are explicit outcomes compared with the implementation; a hidden group "
+         "without a first item is a known finding, three defects here were repaired by fix: commits -- since 1225acf "
+         "check_invariants itself reports a visible group without a first item), the panic sites "
          "of completion (compared per run; one repaired), purity (by construction in Gallina; tied by re-running). "
          "Implementation side: every case under catch_unwind + watchdog; `twice` (same OptionParser, same vector) and `history` "
          "(one OptionParser: parse, completion at revisions 0/1/7/8/9 with and without an application name, html/markdown/"
